@@ -104,7 +104,11 @@ Definition adjust_end (path : list Pos) (lens : list F64) (k : nat) (e : F64) : 
 
 (* ---------- T16a ---------- *)
 
-Definition near_natural (calc e : F64) : bool := negb (D.ge (D.abs (D.sub calc e)) D.eps).
+(* the filter of calculate_length rejects the requested length -- the natural
+   curve is kept -- exactly when !((calculated_len - len).abs() > 0.0): the
+   difference is +-0.0 or NaN (characterised in Proofs/LengthExact.v: the two
+   are the same number, or the difference is NaN) *)
+Definition keeps_natural (calc e : F64) : bool := negb (D.gt (D.abs (D.sub calc e)) D.zero).
 
 Theorem calculate_length_cases path e opt :
   let nat := natural path opt in
@@ -112,7 +116,7 @@ Theorem calculate_length_cases path e opt :
   match e with
   | None => calculate_length path None opt = Done (path, nat)
   | Some L =>
-      if near_natural calc L then calculate_length path e opt = Done (path, nat)
+      if keeps_natural calc L then calculate_length path e opt = Done (path, nat)
       else if last_two_equal path && D.gt L calc then calculate_length path e opt = Done (path, nat ++ [calc])
       else if Nat.leb (length path) 1 then calculate_length path e opt = Done (path, [D.zero])
       else
@@ -129,8 +133,8 @@ Proof.
   unfold nat, calc, natural, natural_len in *.
   destruct (cum_lengths opt path) as [rest fin] eqn:EC. cbn [fst snd] in *.
   destruct e as [L|]; [|reflexivity].
-  unfold near_natural.
-  destruct (negb (D.ge (D.abs (D.sub fin L)) D.eps)); [reflexivity|].
+  unfold keeps_natural.
+  destruct (negb (D.gt (D.abs (D.sub fin L)) D.zero)); [reflexivity|].
   destruct (last_two_equal path && D.gt L fin)%bool; [reflexivity|].
   destruct (Nat.leb (length path) 1) eqn:E1.
   - apply Nat.leb_le in E1.
@@ -203,7 +207,7 @@ Proof.
   pose proof (calculate_length_cases path e opt) as C. cbv zeta in C.
   pose proof (natural_length path opt) as Hnl.
   destruct e as [L|].
-  - destruct (near_natural (natural_len path opt) L).
+  - destruct (keeps_natural (natural_len path opt) L).
     { rewrite C in H. apply Done_pair_inj in H; destruct H as [<- <-]. split; [lia|]. eexists; reflexivity. }
     destruct (last_two_equal path && D.gt L (natural_len path opt))%bool.
     { rewrite C in H. apply Done_pair_inj in H; destruct H as [<- <-]. rewrite app_length. split; [lia|]. eexists; reflexivity. }
@@ -221,7 +225,7 @@ Qed.
 Theorem calculate_length_sizes path e opt path' lens :
   calculate_length path e opt = Done (path', lens) -> path <> [] ->
   length lens = length path' \/
-  (exists L, e = Some L /\ near_natural (natural_len path opt) L = false /\
+  (exists L, e = Some L /\ keeps_natural (natural_len path opt) L = false /\
              last_two_equal path = true /\ D.gt L (natural_len path opt) = true /\
              path' = path /\ lens = natural path opt ++ [natural_len path opt]).
 Proof.
@@ -230,7 +234,7 @@ Proof.
   pose proof (natural_length path opt) as Hnl.
   assert (Hp : 1 <= length path) by (destruct path; [congruence|cbn; lia]).
   destruct e as [L|].
-  - destruct (near_natural (natural_len path opt) L) eqn:En.
+  - destruct (keeps_natural (natural_len path opt) L) eqn:En.
     { rewrite C in H. apply Done_pair_inj in H; destruct H as [<- <-]. left. lia. }
     destruct (last_two_equal path) eqn:El2; cbn [andb] in C.
     + destruct (D.gt L (natural_len path opt)) eqn:Eg.
@@ -283,15 +287,15 @@ Proof.
   exists (removelast (x :: r)). reflexivity.
 Qed.
 
-(* T16a (iv): requested length L > 0, not within epsilon of the natural
-   length, not the "duplicate end, longer" exception, at least two vertices:
+(* T16a (iv): requested length L > 0 that differs from the natural length
+   (the filter lets it through), not the "duplicate end, longer" exception, at least two vertices:
    the distance IS L; the path is the natural path cut after vertex k-1 plus
    one new end point on the ray from vertex k-1 through vertex k; k-1 is the
    last vertex (before the final one) whose natural cumulative length is
    below L *)
 Theorem calculate_length_adjusts path L opt path' lens :
   D.lt D.zero L = true ->
-  near_natural (natural_len path opt) L = false ->
+  keeps_natural (natural_len path opt) L = false ->
   (last_two_equal path && D.gt L (natural_len path opt))%bool = false ->
   2 <= length path ->
   calculate_length path (Some L) opt = Done (path', lens) ->
@@ -353,8 +357,8 @@ Proof.
   intros H. rewrite dist_last. apply natural_len_last. exact H.
 Qed.
 
-Lemma near_natural_keeps_natural path L opt :
-  near_natural (natural_len path opt) L = true ->
+Lemma unchanged_length_keeps_natural path L opt :
+  keeps_natural (natural_len path opt) L = true ->
   calculate_length path (Some L) opt = Done (path, natural path opt).
 Proof.
   intros H. pose proof (calculate_length_cases path (Some L) opt) as C.
